@@ -1,5 +1,5 @@
 ENGINES = [
- {"name": "cbmc-src", "path": "/verif/check", "serves_properties": ["C01", "C03", "C04", "C05", "C06", "C08"],
+ {"name": "cbmc-src", "path": "/verif/check", "serves_properties": ["C01", "C02", "C03", "C04", "C05", "C06", "C07", "C08", "C13", "C14", "C16", "C19"],
   "kind_free_text": "goto-cc compiles the real /repo sources (repo config.h, pointer-order normalised copy) with a harness and explicit libc models; CBMC 6.11 (cadical) decides the assertions over all inputs inside the stated bounds; every counterexample is replayed against a native gcc build with guard pages"},
 ]
 NOTES = "See DESIGN.md. All verdicts are bounded (bounds per job in the evidence files); known_findings.json lists genuine defects of the pinned tree that are recorded rather than repaired."
@@ -13,4 +13,12 @@ CHECKS = {
  "C06": {"text": "On success dest equals the reference result of the standard counterpart and a result that does not fit is rejected.", "note": COMMON_NOTE},
  "C08": {"text": "After success every element behind the terminator up to dmax is zero (slack build); terminator present (no-slack build).", "note": COMMON_NOTE},
 }
+CHECKS.update({
+ "C02": {"text": "Every operand is an object of exactly its declared size (geometry sliced concretely, contents/lengths symbolic); CBMC's pointer checks on every dereference in the library and in the libc models are the faulting boundary; a failure counts when the native replay faults on a read next to a PROT_NONE page.", "note": COMMON_NOTE},
+ "C07": {"text": "Source and destination inside one arena at every relative offset (symbolic for the string family, concrete slices for the word-unrolled memory primitives): disjoint operands behave normally, intersecting read/write ranges give ESOVRLP with dest cleared, memmove family equals a copy through a temporary.", "note": COMMON_NOTE},
+ "C13": {"text": "One-step inductive check of the four real registration variables against a reference model (any state, any operation), plus bounded two-thread histories in which the thread-local variables (as declared in the compiled TU) are switched per executing thread.", "note": COMMON_NOTE + " The meaning of _Thread_local is trusted (CBMC refuses shared function pointers in threaded programs); which variables are thread-local is read from the goto binary on every run."},
+ "C14": {"text": "Call histories of strtok_s/wcstok_s over symbolic strings and per-call delimiter sets against a reference tokenizer: pointers, terminators, only delimiter positions overwritten, *ptr/*dmaxp never reach past dmax, NULL forever after exhaustion; the 16/17 delimiter edge.", "note": COMMON_NOTE},
+ "C16": {"text": "qsort_s (smoothsort) for concrete nmemb/size slices with symbolic keys and payload: ordered, permutation of whole elements, comparator sees only in-array element pointers and the caller's context; bsearch_s on sorted symbolic arrays: match returned iff one exists; exact-size guard object.", "note": COMMON_NOTE},
+ "C19": {"text": "Result half: timingsafe_bcmp zero iff equal, timingsafe_memcmp sign of the first differing pair as unsigned char, for all contents of both regions (n sliced).", "note": COMMON_NOTE + " Data-independence half: see DESIGN (LLVM-IR executor)."},
+})
 NA = {}
